@@ -35,11 +35,14 @@ pub struct FaultPlan {
     pub fragment: bool,
     /// (round, from, to) messages that are delivered twice (at-least-once transport)
     pub dup: BTreeSet<(usize, usize, usize)>,
+    /// messages of `truncated` that the sender transmits again, in full, after the cut copy (the
+    /// receiving application saw an error and asked again)
+    pub retransmit: BTreeSet<(usize, usize, usize)>,
 }
 
 impl FaultPlan {
     pub fn is_empty(&self) -> bool {
-        self.lost.is_empty() && self.truncated.is_empty() && self.crash.is_none() && self.dup.is_empty()
+        self.lost.is_empty() && self.truncated.is_empty() && self.crash.is_none() && self.dup.is_empty() && self.retransmit.is_empty()
     }
     pub fn to_json(&self) -> Value {
         json!({
@@ -48,6 +51,7 @@ impl FaultPlan {
             "crash": self.crash.map(|(p, r, k)| json!([p, r, k])),
             "fragment": self.fragment,
             "duplicated": self.dup.iter().map(|(r, f, t)| json!([r, f, t])).collect::<Vec<_>>(),
+            "retransmitted": self.retransmit.iter().map(|(r, f, t)| json!([r, f, t])).collect::<Vec<_>>(),
         })
     }
     pub fn from_json(v: &Value) -> Option<Self> {
@@ -64,6 +68,12 @@ impl FaultPlan {
             p.crash = Some((a[0].as_u64()? as usize, a[1].as_u64()? as usize, a[2].as_u64()? as usize));
         }
         p.fragment = v["fragment"].as_bool().unwrap_or(false);
+        if let Some(d) = v["retransmitted"].as_array() {
+            for x in d {
+                let a = x.as_array()?;
+                p.retransmit.insert((a[0].as_u64()? as usize, a[1].as_u64()? as usize, a[2].as_u64()? as usize));
+            }
+        }
         if let Some(d) = v["duplicated"].as_array() {
             for x in d {
                 let a = x.as_array()?;
@@ -145,6 +155,9 @@ pub struct NetOutcome {
     pub advance_on_incomplete: Vec<(usize, Result<(), String>)>,
     pub recv_errors: u64,
     pub dup_fired: u64,
+    pub retransmit_fired: u64,
+    /// the party was sent a full copy of a message after a truncated one
+    pub retx_seen: Vec<bool>,
     /// the party was handed at least one duplicate message
     pub dup_seen: Vec<bool>,
 }
@@ -176,7 +189,7 @@ pub fn drive(n: usize, io: &mut dyn SessionIo, plan: &FaultPlan, order: &Order, 
     let mut q: BinaryHeap<Item> = BinaryHeap::new();
     let mut seq = 0u64;
     let mut now;
-    let mut out = NetOutcome { complete: vec![false; n], crashed: vec![false; n], at_last_round: vec![false; n], dup_seen: vec![false; n], ..Default::default() };
+    let mut out = NetOutcome { complete: vec![false; n], crashed: vec![false; n], at_last_round: vec![false; n], dup_seen: vec![false; n], retx_seen: vec![false; n], ..Default::default() };
     let mut cur_round = vec![0usize; n];
     let mut got: Vec<Vec<BTreeSet<usize>>> = vec![vec![BTreeSet::new(); rounds]; n];
     let mut buffered: Vec<Vec<(usize, usize, Vec<u8>, bool)>> = vec![Vec::new(); n];
@@ -265,13 +278,21 @@ pub fn drive(n: usize, io: &mut dyn SessionIo, plan: &FaultPlan, order: &Order, 
                     if plan.lost.contains(&(round, from, to)) {
                         out.lost_fired += 1;
                     } else {
+                        let at = if seeded { now + 1 + rng.below(100) } else { rank(2, round, from, to) };
                         if let Some(&k) = plan.truncated.get(&(round, from, to)) {
                             if k < bytes.len() {
+                                if plan.retransmit.contains(&(round, from, to)) {
+                                    // the full copy follows the cut one
+                                    let at2 = if seeded { at + 1 + rng.below(150) } else { rank(3, round, from, to) };
+                                    q.push(Item { at: at2, seq, ev: Ev::Deliver { round, from, to, bytes: bytes.clone(), dup: false } });
+                                    seq += 1;
+                                    out.retransmit_fired += 1;
+                                    out.retx_seen[to] = true;
+                                }
                                 bytes.truncate(k);
                                 out.truncated_fired += 1;
                             }
                         }
-                        let at = if seeded { now + 1 + rng.below(100) } else { rank(2, round, from, to) };
                         if plan.dup.contains(&(round, from, to)) {
                             let at2 = if seeded { at + 1 + rng.below(150) } else { rank(3, round, from, to) };
                             q.push(Item { at: at2, seq, ev: Ev::Deliver { round, from, to, bytes: bytes.clone(), dup: true } });
